@@ -62,7 +62,8 @@ def generate(seed, tier, index):
         intents.insert(0, ['destroy', rng.randrange(nslots), 1])     # destroy before anything was seen
     cfg = {'nslots': nslots, 'sides': [rng.choice(['client', 'server']) for _ in range(nslots)], 'synth': True,
            'suppress': rng.random() < 0.5}
-    if rng.random() < 0.12:
+    if rng.random() < 0.12 and not (tier == 'thorough' and index < 16):
+        # (not in the sessions that are replayed under the real gdb: the C program cannot press Ctrl-C at that instant)
         # one fault on the output side, placed where the statement still has something to say: Ctrl-C lands inside gdb.write of
         # a "Closed" notice (stop() raises, gdb halts, the user continues); later connections at that address must still work
         cfg['ctrl_c_in_closed_notice'] = rng.randint(0, 3)
